@@ -35,7 +35,7 @@ MIN_HITS = {
         'm:agnostic-simplex': 150, 'm:agnostic-window-length': 150, 'm:agnostic-window-last': 150,
         'm:agnostic-window-shift': 150, 'agnostic:absent-domain-round': 20, 'agnostic:W=1': 3, 'agnostic:W=2': 3,
         'agnostic:W=3': 3, 'agnostic:dlr=1.0': 3,
-        'm:apfl-coef': 100, 'm:apfl-keyset': 100, 'apfl:coef-at-boundary': 5,
+        'm:apfl-coef': 100, 'm:apfl-keyset': 100, 'apfl:coef-at-boundary': 5, 'hit:apfl-eval-with-unseen-client': 30,
         'm:hyp-argmin': 300, 'm:hyp-argmin-eval': 300, 'm:hyp-oracle': 150, 'm:hyp-empty': 60, 'hyp:empty-after-update': 10, 'hyp:K=1': 2,
         'hyp:K=4': 2, 'hyp:sopt=momentum': 2, 'hyp:sopt=adam': 2,
         'm:mime-server-bound': 100, 'm:mime-diag-bound': 200, 'm:mime-oracle': 100, 'mime:all-far-clipped-round': 60,
@@ -45,7 +45,7 @@ MIN_HITS = {
         'm:agnostic-simplex': 3000, 'm:agnostic-window-length': 3000, 'm:agnostic-window-last': 3000,
         'm:agnostic-window-shift': 3000, 'agnostic:absent-domain-round': 500, 'agnostic:W=1': 100, 'agnostic:W=2': 100,
         'agnostic:W=3': 100, 'agnostic:dlr=1.0': 100,
-        'm:apfl-coef': 5000, 'm:apfl-keyset': 1500, 'apfl:coef-at-boundary': 100,
+        'm:apfl-coef': 5000, 'm:apfl-keyset': 1500, 'apfl:coef-at-boundary': 100, 'hit:apfl-eval-with-unseen-client': 400,
         'm:hyp-argmin': 8000, 'm:hyp-argmin-eval': 8000, 'm:hyp-oracle': 4000, 'm:hyp-empty': 3000,
         'hyp:empty-after-update': 300, 'hyp:K=1': 100, 'hyp:K=4': 100, 'hyp:sopt=momentum': 100, 'hyp:sopt=adam': 100,
         'm:mime-server-bound': 2500, 'm:mime-diag-bound': 6000, 'm:mime-oracle': 2500, 'mime:all-far-clipped-round': 1500,
@@ -321,6 +321,7 @@ def run_apfl(ctx, fedjax, jax, jnp, cfg, h, cache):
   drng, raw = make_world(h)
   init = toy.make_params(drng, DIM, 'flat')
   algo = cache.get(cfg)
+  evaluate = cache.evaluate() if hasattr(cache, 'evaluate') else None
   wit = dict(copt=cspec, sopt=sspec, client_coefficient=coef, num_epochs=epochs, sizes=h['sizes'], cohorts=h['cohorts'],
              data_seed=h['data_seed'], groups=h['groups'])
   r = ctx.call('apfl.init', algo.init, toy.tmap(jnp.asarray, init), witness=wit)
@@ -343,6 +344,21 @@ def run_apfl(ctx, fedjax, jax, jnp, cfg, h, cache):
     cs = state.client_states
     mon(ctx, 'apfl-keyset', set(cs.keys()) == seen and len(cs) == len(seen), 'apfl/client-states-keyset',
         f'round {rnd}: client_states keys {sorted(cs.keys())} != union of participants so far {sorted(seen)}', rw)
+    # evaluation between training rounds, on a cohort that also holds clients that never trained: evaluating is not
+    # participating, the training state must come out of it with the same stored clients (and the next round's state too)
+    if evaluate is not None and (rnd + h['data_seed']) % 2 == 0:
+      eval_idx = sorted(set(cohort_idx) | {(rnd + j + h['data_seed']) % N_CLIENTS for j in range(3)})
+      eclients = [(cid_of(i), fedjax.ClientDataset(raw[cid_of(i)])) for i in eval_idx if h['sizes'][i] > 0]
+      re_ = ctx.call('apfl.eval', lambda: list(evaluate(state, eclients)), witness={**rw, 'evaluated': eval_idx})
+      if re_.ok:
+        ctx.count('hit:apfl-eval-between-rounds')
+        if any(c not in seen for c, _ in eclients):
+          ctx.count('hit:apfl-eval-with-unseen-client')
+        mon(ctx, 'apfl-keyset', set(state.client_states.keys()) == seen, 'apfl/evaluation-stored-client-state',
+            f'round {rnd}: after evaluating clients {eval_idx} the training state stores client states for '
+            f'{sorted(state.client_states.keys())}, participants so far are {sorted(seen)}', {**rw, 'evaluated': eval_idx})
+        mon(ctx, 'apfl-keyset', [c for c, _ in re_.value] == [c for c, _ in eclients], 'apfl/evaluation-client-ids',
+            'APFL evaluation did not return one result per evaluated client, in order', {**rw, 'evaluated': eval_idx})
     at_boundary = False
     for cid in sorted(cs.keys()):
       co = jleaves(cs[cid].interpolation_coefficients)
@@ -791,6 +807,25 @@ def run(ctx):
         fedjax.ShuffleRepeatBatchHParams(batch_size=BATCH, num_epochs=epochs, seed=17), coef)
 
   cache = AlgoCache(build_apfl, keep=1)
+
+  class MeanPrediction(fedjax.metrics.Metric):
+    """Harness metric: mean of the model output (its value is irrelevant here, evaluation only has to run)."""
+
+    def zero(self):
+      return fedjax.metrics.MeanStat.new(0., 0.)
+
+    def evaluate_example(self, example, prediction):
+      return fedjax.metrics.MeanStat.new(prediction, 1.)
+
+  def _apply_for_eval(params, batch):
+    w, b = toy.unpack(params)
+    return jnp.dot(batch['x'], w) + b
+
+  toy_model = fedjax.Model(init=lambda rng_: None, apply_for_train=lambda p, b, r: _apply_for_eval(p, b),
+                           apply_for_eval=_apply_for_eval, train_loss=lambda b, o: 0.5 * jnp.square(o - b['y']),
+                           eval_metrics={'mean_prediction': MeanPrediction()})
+  apfl_eval = apfl.eval_adaptive_personalized_federated_learning(toy_model, fedjax.PaddedBatchHParams(batch_size=BATCH))
+  cache.evaluate = lambda: apfl_eval
   for cid, rng in ctx.cases('apfl', ns * reps * blocks):
     cfg = block_config(ctx, int(cid.split('/')[1]), cfgs, reps)
     run_apfl(ctx, fedjax, jax, jnp, cfg, gen_population(rng, kmax=3), cache)
